@@ -631,4 +631,67 @@ theorem callBuiltin_depth (F : Nat) (st : State) (d : Nat) :
     callBuiltin (F + 1) st "depth!" [] d = (.ok .nil, { st with marks := d :: st.marks }) := by
   rw [callBuiltin.eq_def]; simp
 
+/-! ## §4 chains of tail steps -/
+
+/-- a configuration of the `EVAL` loop: remaining fuel, state, scope, form -/
+structure Cfg where
+  fuel : Nat
+  st : State
+  env : Nat
+  ast : Val
+
+/-- one tail step of a loop running at depth `d`: the loop replaces its configuration and `continue`s.
+    One constructor per tail construct; the premises are those of the tail laws of §1 (the non-tail
+    sub-evaluations they mention run at depth `d + 1`). -/
+inductive TailStep (d : Nat) : Cfg → Cfg → Prop
+  | doLast {st env F p ops pos vs s1} (hl : Live st) (hst : st.stepper = none) (hm : NotMacro st env "do")
+      (hs1 : s1.stepper = none) (hne : ops ≠ [])
+      (h : evalList F (tick st) env ops.dropLast d = (.ok vs, s1)) :
+      TailStep d ⟨F + 2, st, env, .list (.sym "do" p :: ops) pos⟩ ⟨F + 1, s1, env, ops.getLast?.getD .nil⟩
+  | letLast {st env F p a1 body pos arr u s1 vs s2} (hl : Live st) (hst : st.stepper = none)
+      (hm : NotMacro st env "let") (ha : seqOf? a1 = some arr) (heven : arr.length % 2 = 0) (hne : body ≠ [])
+      (hs2 : s2.stepper = none)
+      (hb : letBinds (F + 1) ((tick st).newScope env []).1 ((tick st).newScope env []).2 arr a1 d = (.ok u, s1))
+      (hf : evalList F s1 ((tick st).newScope env []).2 body.dropLast d = (.ok vs, s2)) :
+      TailStep d ⟨F + 2, st, env, .list (.sym "let" p :: a1 :: body) pos⟩
+        ⟨F + 1, s2, ((tick st).newScope env []).2, body.getLast?.getD .nil⟩
+  | ifThen {st env F p c a rest pos v s1} (hl : Live st) (hm : NotMacro st env "if") (hs1 : s1.stepper = none)
+      (h : eval (F + 1) (tick st) env c (d + 1) = (.ok v, s1)) (hv : truthy v = true) :
+      TailStep d ⟨F + 2, st, env, .list (.sym "if" p :: c :: a :: rest) pos⟩ ⟨F + 1, s1, env, a⟩
+  | ifElse {st env F p c a b rest pos v s1} (hl : Live st) (hm : NotMacro st env "if") (hs1 : s1.stepper = none)
+      (h : eval (F + 1) (tick st) env c (d + 1) = (.ok v, s1)) (hv : truthy v = false) :
+      TailStep d ⟨F + 2, st, env, .list (.sym "if" p :: c :: a :: b :: rest) pos⟩ ⟨F + 1, s1, env, b⟩
+  | call {st env s F p ops pos params body fenv m fp args s1 data} (hl : Live st) (hm : NotMacro st env s)
+      (hsf : s ∉ specialForms) (hs1 : s1.stepper = none)
+      (h : evalList (F + 1) (tick st) env (.sym s p :: ops) d = (.ok (.fn params body fenv m fp :: args), s1))
+      (hb : bindParams params args = .ok data) :
+      TailStep d ⟨F + 2, st, env, .list (.sym s p :: ops) pos⟩
+        ⟨F + 1, (s1.newScope fenv data).1, (s1.newScope fenv data).2, body⟩
+  | quasi {st env F p x rest pos} (hl : Live st) (hst : st.stepper = none) (hm : NotMacro st env "quasiquote") :
+      TailStep d ⟨F + 2, st, env, .list (.sym "quasiquote" p :: x :: rest) pos⟩ ⟨F + 1, tick st, env, quasiquote x⟩
+
+/-- a chain of tail steps of any length -/
+inductive TailChain (d : Nat) : Cfg → Cfg → Prop
+  | refl (c : Cfg) : TailChain d c c
+  | step {a b c : Cfg} : TailStep d a b → TailChain d b c → TailChain d a c
+
+theorem TailStep.sameDepth {d : Nat} {a b : Cfg} (h : TailStep d a b) :
+    evalLoop a.fuel a.st a.env a.ast d = evalLoop b.fuel b.st b.env b.ast d := by
+  cases h with
+  | doLast hl hst hm hs1 hne h => exact tail_do hl hm _ _ _ _ d _ _ hs1 hne h hst
+  | letLast hl hst hm ha heven hne hs2 hb hf => exact tail_let hl hm hst _ _ _ _ _ d _ ha heven hne _ _ _ _ hs2 hb hf
+  | ifThen hl hm hs1 h hv => exact tail_if_then hl hm _ _ _ _ _ _ d _ _ hs1 h hv
+  | ifElse hl hm hs1 h hv => exact tail_if_else hl hm _ _ _ _ _ _ _ d _ _ hs1 h hv
+  | call hl hm hsf hs1 h hb => exact tail_closure_call hl hm hsf _ _ _ _ d _ _ _ _ _ _ _ hs1 h _ hb
+  | quasi hl hst hm => exact tail_quasiquote hl hm hst _ _ _ _ _ d
+
+/-- **No additional host stack, at any length**: along any chain of tail steps — last forms of `do` / `let` /
+    fn bodies, selected `if` branches, closure calls (self or mutual), `quasiquote` — the activation of the
+    loop that started the chain is the one that finishes it: same depth `d`, same result. -/
+theorem TailChain.sameDepth {d : Nat} {a b : Cfg} (h : TailChain d a b) :
+    evalLoop a.fuel a.st a.env a.ast d = evalLoop b.fuel b.st b.env b.ast d := by
+  induction h with
+  | refl c => rfl
+  | step h1 _ ih => exact h1.sameDepth.trans ih
+
 end LispModel.Proofs.EvalTail
